@@ -409,9 +409,11 @@ where
 }
 
 // SAFETY: `NonNull<T>` is not `Send` or `Sync` by default, but we're asserting that `Cow` is so
-// long as the underlying `T` is.
-unsafe impl<T: Cowable + Sync + ?Sized> Sync for Cow<'_, T> {}
-unsafe impl<T: Cowable + Send + ?Sized> Send for Cow<'_, T> {}
+// long as the underlying `T` is.  A `Cow` can be a `&T` or an `Arc<T>` (both hand out `&T` to
+// several owners, and the last `Arc<T>` owner drops the `T`), so the bounds are those of `Arc<T>`:
+// `T: Sync + Send` for both.
+unsafe impl<T: Cowable + Sync + Send + ?Sized> Sync for Cow<'_, T> {}
+unsafe impl<T: Cowable + Sync + Send + ?Sized> Send for Cow<'_, T> {}
 
 #[repr(C)]
 #[derive(Clone, Copy, Debug, PartialEq, Eq)]
